@@ -26,12 +26,15 @@ func inBubble(t *testing.T, f func() (bool, string)) (violated bool, detail stri
 	return
 }
 
-func newDS(t *testing.T, store ds.Batching, cache uint, lookahead bool) interface {
+func newDS(t *testing.T, store ds.Batching, cache uint, lookahead bool, capN ...int) interface {
 	pstore.AddrBook
 	pstore.CertifiedAddrBook
 	Close() error
 } {
 	o := pstoreds.Options{CacheSize: cache, MaxProtocols: 1024, GCPurgeInterval: time.Minute}
+	if len(capN) > 0 {
+		o.MaxAddrsPerPeer = capN[0]
+	}
 	if lookahead {
 		o.GCLookaheadInterval = 2 * time.Minute
 	}
@@ -170,6 +173,24 @@ func TestWitness_DSCleanedWithoutFlushNeverDeleted(t *testing.T) {
 			synctest.Wait()
 			if ps := ab.PeersWithAddrs(); len(ps) != 0 {
 				return true, fmt.Sprintf("peer still listed 10 minutes (5 lookahead windows) after its only address expired: %v", ps)
+			}
+			return false, ""
+		})
+	})
+}
+
+func TestWitness_DSDuplicateInBatch(t *testing.T) {
+	hx.Shard0(t)
+	kf.Witness(t, "C09-ds-duplicate-in-batch", func() (bool, string) {
+		return inBubble(t, func() (bool, string) {
+			ab := newDS(t, dssync.MutexWrap(ds.NewMapDatastore()), 0, false)
+			defer ab.Close()
+			ab.AddAddrs(pid(1), []ma.Multiaddr{baseAddrs[0], baseAddrs[1], baseAddrs[0]}, pstore.RecentlyConnectedAddrTTL)
+			ab.SetAddrs(pid(1), []ma.Multiaddr{baseAddrs[0]}, pstore.TempAddrTTL)
+			time.Sleep(5 * time.Minute)
+			got := addrSet(ab.Addrs(pid(1)))
+			if len(got) != 1 || got[0] != baseAddrs[1].String() {
+				return true, fmt.Sprintf("address set to a 2 minute TTL is still returned after 5 minutes: %v", got)
 			}
 			return false, ""
 		})
